@@ -1,5 +1,5 @@
 #!/usr/bin/env python3
-"""tools/seed_matrix.py [--tests] [--all] [--only PATTERN] : evaluate every /verif/seeded/<case>/ against the checks.
+"""tools/seed_matrix.py [--tests] [--all | --prior] [--only PATTERN] : evaluate every /verif/seeded/<case>/ against the checks.
 
 For each case, in a private scratch worktree of /repo's HEAD: demo on the clean tree (must pass), apply patch.diff
 (git apply, else patch -F3), demo (must fail), optionally the repository's own suite (must still pass), then the
@@ -50,7 +50,21 @@ try:
                 t = sh('cd %s && python3 tools/baseline.py %s' % (VERIF, WT))
                 meta['existing_suite_still_passes'] = t.returncode == 0
             det = {}
-            for pr in (ALL if '--all' in flags else [prop]):
+            run = ALL if '--all' in flags else [prop]
+            if '--prior' in flags:
+                # re-evaluation on a newer head: the property's own check plus the checks that reported this change in
+                # the last full evaluation (all 20 again when none did)
+                try:
+                    prev = json.load(open(os.path.join(d, 'meta.json')))
+                except Exception:
+                    prev = {}
+                if len(prev.get('checks', {})) == 20 and prev.get('detected_by'):
+                    run = sorted(set(prev['detected_by']) | {prop})
+                    meta['earlier_full_evaluation'] = {'repo_head': prev.get('repo_head'),
+                                                       'detected_by': prev.get('detected_by')}
+                else:
+                    run = ALL
+            for pr in run:
                 c = sh('cd %s && VERIF_REPO=%s ./check %s quick' % (VERIF, WT, pr))
                 mechs = sorted({l.split('mechanism=')[1].split(' ')[0] for l in c.stdout.splitlines() if 'mechanism=' in l})
                 det[pr] = {'rc': c.returncode, 'mechanisms': mechs}
@@ -68,7 +82,7 @@ try:
         for k in ('existing_suite_still_passes',):
             if k not in meta and k in old:
                 meta[k] = old[k]
-        if '--all' not in flags and old.get('checks'):
+        if '--all' not in flags and '--prior' not in flags and old.get('checks'):
             merged = dict(old['checks']); merged.update(meta.get('checks', {}))
             meta['checks'] = merged
             meta['detected_by'] = sorted(k for k, v in merged.items() if v['rc'] == 1)
